@@ -4,6 +4,14 @@ aranya_capi_core::write_c_str with guard bytes (DESIGN §5 C47)."""
 import json
 import verif
 
+META = {
+    "level": "model_checking",
+    "engine": "small",
+    "technique": "TLA+ spec CStrWriter model-checked with TLC; every TLC behaviour replayed into write_c_str (spec->impl conformance)",
+    "text": "TLC enumerates every buffer size x fragment sequence of the CStrWriter spec (invariants NoOverflow, FinishCorrect, NwExact); every maximal behaviour is replayed through the real write_c_str with guard bytes around the caller buffer and the outcome compared with the property's predicate and the spec's expectation. Exhaustive within the stated constants.",
+    "note": "Bounds: sizes 0..6 (thorough 0..12), <=3 (4) fragments of length 0..4 (5). Trusts the harness Display impl to issue one write_str per fragment and the 16-byte guard zones to reveal out-of-buffer writes.",
+}
+
 
 def run(ctx):
     vh = ctx.build("small")
